@@ -1,4 +1,4 @@
-SPECIFICATION SpecC11SharedCancelR
+SPECIFICATION SpecC11RegGiveUp
 CONSTANTS
   Validators = {1, 2}
   Externals = {3}
@@ -11,8 +11,8 @@ CONSTANTS
   AuctionImpl = "intended"
   Resolution = "locked"
   MaxRounds = 2
-  ErrKinds <- ErrKindsOne
-INVARIANTS TypeOKC11 ForwardedAll
+
+INVARIANTS TypeOKC11 FailureIsolated
 CONSTRAINT RoundBound
 CONSTRAINT NoLane2
 CHECK_DEADLOCK FALSE
